@@ -456,8 +456,11 @@ def points(ctx, col):
             if isinstance(c, ast.Call) and dotted(c.func) in ("self._assert_and_cunsume", "self._assert"):
                 t = dotted(c.args[-1]) or ""
                 seq.append(t.rsplit(".", 1)[-1])
+    straight = not any(isinstance(x, (ast.For, ast.While, ast.ListComp, ast.GeneratorExp, ast.If, ast.Try, ast.Match)) for x in own_nodes(d)) \
+        and all(t in ("FLOAT", "BRACKET_RIGHT") for t in seq)
+    # straight-line code: the asserted token types ARE the accepted token sequence (a fact, not a shape)
     col.check(seq == ["FLOAT"] * 4 + ["BRACKET_RIGHT"], R, d.qualname, d.loc(), "a point is four numbers and a closing bracket",
-              str(seq), f"token sequence asserted by the point parser is {seq}", stmt="seq")
+              str(seq), f"token sequence asserted by the point parser is {seq}", stmt="seq", definite=straight)
     asg = [s for s in d.node.body if isinstance(s, ast.Assign) and isinstance(s.targets[0], ast.Tuple)
            and [getattr(e, "id", None) for e in s.targets[0].elts] == ["x", "y", "z", "r"]]
     toks = [s.targets[0].id for s in d.node.body if isinstance(s, ast.Assign) and isinstance(s.targets[0], ast.Name)
